@@ -51,7 +51,7 @@ def P_filter(ctx, lib):
         b = lib.one("adf::Adf::two_val_model_counts")
         d = flow.Defs(b)
         ret = d.expr_local(0)
-        env = match(ret, C("Adf::two_val_model_counts_logic", P(1), P(2), V("wb"), K(0), P(3)))
+        env = match(ret, C("Adf::two_val_model_counts_logic", P(1), P(2), V("wb"), ANY, P(3)))   # the depth argument only feeds log messages
         ok = env is not None
         if ok:
             wb = env["wb"]
@@ -68,8 +68,9 @@ def shared_und(e):
 
 def T_cube(ctx, lib):
     rule = "C04.T-cube"
-    ctx.rule(rule, "in two_val_model_counts_logic the literals of a cube are applied as: negative var -> reject iff current value is TOP or will_be is TOP, "
-                   "else BOT; positive var -> reject iff current value is BOT or will_be is BOT, else TOP (closure tables over the term-class domain)")
+    ctx.rule(rule, "in two_val_model_counts_logic the literals of a cube are applied as: negative var -> BOT unless the current value is TOP or will_be is TOP; "
+                   "positive var -> TOP unless the current value is BOT or will_be is BOT (closure tables over the term-class domain).  Obligation: a literal that does not "
+                   "contradict the current value / will_be is accepted and gets its own value (over-rejection loses models); rejecting less is redundant but harmless")
     try:
         b = lib.one("adf::Adf::two_val_model_counts_logic")
     except LookupError as e:
@@ -142,15 +143,22 @@ def T_cube(ctx, lib):
             else:
                 reject = cur == "B" or wb == "B"
                 want = {("reject", 0)} if reject else {("assign", ("T",), True)}
+            if reject:
+                # not an obligation: a cube that contradicts the current interpretation or will_be cannot contain a model, so exploring it anyway is redundant work whose
+                # results the final stability filter drops (triage oracle: weakening these rejections changes no answer); rejecting MORE loses models and is checked below.
+                # What must hold even here: nothing but the literal's own value is ever written.
+                okw = all(o[0] == "reject" or (o[0] == "assign" and o[2] and set(o[1]) <= {"B" if polarity == "negative" else "T"}) for o in outs)
+                ctx.ob(rule, "%s[cur=%s,will_be=%s]" % (polarity, cur, wb), okw, where=c.where(), expected="reject, or assign the literal's own value", found=sorted(map(str, outs)), nontrivial=False)
+                continue
             ctx.ob(rule, "%s[cur=%s,will_be=%s]" % (polarity, cur, wb), outs == want, where=c.where(), expected=sorted(map(str, want)), found=sorted(map(str, outs)))
     ctx.floor(rule, "literal closures", n, 2)
 
 
 def T_choice(ctx, lib):
     rule = "C04.T-choice"
-    ctx.rule(rule, "two_val_model_counts_logic branches only on a statement that is undecided both in the current interpretation and in will_be: the filter over "
-                   "interpr.iter().enumerate() keeps (idx, val) iff class(val) = U and class(will_be[idx]) = U, with will_be indexed by the item's own idx; when no such "
-                   "statement is left, the concluded interpretation takes will_be[idx] for undecided and the value itself for decided positions (same idx)")
+    ctx.rule(rule, "two_val_model_counts_logic keeps branching while a statement is undecided both in the current interpretation and in will_be: the filter over "
+                   "interpr.iter().enumerate() keeps (idx, val) whenever class(val) = U and class(will_be[idx]) = U, with will_be indexed by the item's own idx; when no "
+                   "candidate is left, the concluded interpretation takes will_be[idx] for undecided and the value itself for decided positions (same idx)")
     try:
         b = lib.one("adf::Adf::two_val_model_counts_logic")
     except LookupError as e:
@@ -202,9 +210,12 @@ def T_choice(ctx, lib):
                 tab[(cur, wb)] = outs
         if r.adaptor == "filter":
             n_f += 1
-            for (cur, wb), outs in sorted(tab.items()):
-                want = {symx.show(symx.vbool(cur == "U" and wb == "U"))}
-                ctx.ob(rule, "candidate[val=%s,will_be=%s]" % (cur, wb), outs == want, where=c.where(), expected=sorted(want), found=sorted(map(str, outs)))
+            # only the row that is a necessary condition is an obligation: a statement undecided in both vectors must remain a candidate (otherwise the search
+            # stops branching and returns interpretations with undecided positions, which the final stability filter drops: models are lost).  Keeping additional,
+            # already decided statements as candidates was found to be redundant but harmless (triage oracle, 12 000 random ADFs), so those rows are not checked.
+            outs = tab[("U", "U")]
+            want = {symx.show(symx.vbool(True))}
+            ctx.ob(rule, "candidate[val=U,will_be=U]", outs == want, where=c.where(), expected=sorted(want), found=sorted(map(str, outs)))
         else:
             n_m += 1
             for (cur, wb), outs in sorted(tab.items()):
@@ -219,7 +230,8 @@ def F_branch(ctx, lib):
     ctx.rule(rule, "two_val_model_counts_logic, per cube of Bdd::interpretations(ac, goal, Var(idx), [], []): the recursion is entered only if BOTH literal passes succeeded "
                    "(negative and positive try_for_each combined by Result::and, result Ok) and check_consistency(update_interpretation_fixpoint(new_int), will_be) holds; "
                    "before that new_int[idx] is set to TOP iff goal (BOT otherwise) for the same idx and the same goal that were handed to interpretations; the recursion "
-                   "receives that updated interpretation and the unchanged will_be")
+                   "receives that updated interpretation and the unchanged will_be; afterwards the chosen statement is concluded to have the opposite value "
+                   "(upd_int[idx] = BOT iff goal) and will_be[idx] is fixed for the continuation")
     try:
         b = lib.one("adf::Adf::two_val_model_counts_logic")
     except LookupError as e:
@@ -323,6 +335,43 @@ def F_branch(ctx, lib):
             ctx.ob(rule, key + ".consistent-update-recursed", okc, where=c.where(), expected="upd = update_interpretation_fixpoint(&new_int); check_consistency(&upd, will_be); logic(&upd, will_be, ..)",
                    found=p.describe()[:260])
     ctx.floor(rule, "recursing cube paths", n_rec, 2)
+    # the other value: after the cubes of `goal`, the chosen statement is concluded to have the opposite value
+    eng2 = ctx.engine([lib], no_inline={"adf_bdd::adf::Adf::two_val_model_counts_logic", "adf_bdd::adf::Adf::update_interpretation_fixpoint", "adf_bdd::adf::Adf::check_consistency",
+                                        "adf_bdd::obdd::Bdd::interpretations", "adf_bdd::obdd::Bdd::paths"})
+    st = symx.State()
+    paths = eng2.summarise(b, [shared.ref_to(st, ("sym", "adf")), shared.ref_to(st, ("sym", "interpr")), shared.ref_to(st, ("sym", "will_be")), ("sym", "depth"), ("sym", "heu")], st)
+    n2 = 0
+    for p in paths:
+        rec = effects_named(p, "Adf::two_val_model_counts_logic")
+        if not rec:
+            continue
+        n2 += 1
+        ie = effects_named(p, "Bdd::interpretations")
+        if len(ie) != 1:
+            ctx.cannot(rule, "other-value.interpretations", "one interpretations call on the path", b.where(), len(ie))
+            continue
+        goal_expr = deep_strip(ie[0]["args"][2])
+        gvar = deep_strip(ie[0]["args"][3])
+        gv = [v for e, v in p.cond if deep_strip(e) == goal_expr]
+        if goal_expr[0] == "bool":
+            goal = goal_expr[1]
+        elif gv:
+            goal = int_of(gv[0]) == 1
+        else:
+            ctx.cannot(rule, "other-value.goal", "the goal flag handed to interpretations is tested before the conclusion", b.where(), symx.show(goal_expr)[:160])
+            continue
+        idx = gvar[3][0][1] if gvar[0] == "adt" and gvar[1] == shared.VAR else None
+        ims = [e for e in p.effects if e.get("kind") == "index_mut" and e["cell"] in p.state.written]
+        upd = [e for e in ims if is_call(deep_strip(e["args"][0]), "Adf::update_interpretation_fixpoint")]
+        okv = len(upd) == 1 and idx is not None and deep_strip(upd[0]["args"][1]) == deep_strip(idx) and shared.cls_of_term(deep_strip(p.state.cells[upd[0]["cell"]])) == ("B" if goal else "T")
+        ctx.ob(rule, "other-value[goal=%s]" % goal, okv, where=b.where(), expected="upd_int[idx] = %s (the value not explored through the cubes)" % ("BOT" if goal else "TOP"),
+               found=[(symx.show(deep_strip(e["args"][0]))[:50], symx.show(deep_strip(e["args"][1]))[:50], symx.show(deep_strip(p.state.cells[e["cell"]]))[:40]) for e in ims][:3])
+        wb = [e for e in ims if not is_call(deep_strip(e["args"][0]), "Adf::update_interpretation_fixpoint") and symx.contains(deep_strip(e["args"][0]), lambda n_: n_ == ("sym", "will_be"))]
+        ra = [deep_strip(a) for a in rec[0]["args"]]
+        okr = (len(wb) == 1 and idx is not None and deep_strip(wb[0]["args"][1]) == deep_strip(idx) and len(ra) >= 3 and is_call(ra[1], "Adf::update_interpretation_fixpoint")
+               and symx.contains(ra[2], lambda n_: n_ == ("sym", "will_be")))
+        ctx.ob(rule, "other-value.recursion[goal=%s]" % goal, okr, where=b.where(), expected="must_be_new = will_be with [idx] fixed; logic(&upd_int, &must_be_new, ..)", found=[symx.show(a)[:80] for a in ra[1:3]])
+    ctx.floor(rule, "conclusion paths", n2, 2)
 
 
 def check(ctx):
